@@ -5,8 +5,61 @@ set_option linter.unusedSimpArgs false
 
 namespace Paloma.TranslatedTie
 open Paloma.Gen
+open Paloma
+
+section Lemmas
+
+theorem getD_map_ofNat (l : List Nat) (i : Nat) (h : ∀ x ∈ l, x < 2 ^ 64) :
+    ((l.map UInt64.ofNat).getD i 0).toNat = l.getD i 0 := by
+  induction l generalizing i with
+  | nil => simp
+  | cons a as ih =>
+    cases i with
+    | zero => simp [UInt64.toNat_ofNat', Nat.mod_eq_of_lt (h a (by simp))]
+    | succ j =>
+      simp only [List.map_cons, List.getD_cons_succ]
+      exact ih j (fun x hx => h x (by simp [hx]))
+
+theorem sortAsc_mem (l : List Nat) : ∀ x, x ∈ Libcons.sortAsc l ↔ x ∈ l := by
+  have ins : ∀ (a : Nat) (l : List Nat) (x : Nat), x ∈ Libcons.insertSorted a l ↔ x = a ∨ x ∈ l := by
+    intro a l
+    induction l with
+    | nil => intro x; simp [Libcons.insertSorted]
+    | cons y ys ih =>
+      intro x
+      simp only [Libcons.insertSorted]
+      split
+      · simp
+      · simp only [List.mem_cons, ih x]
+        constructor
+        · rintro (h | h | h)
+          · exact Or.inr (Or.inl h)
+          · exact Or.inl h
+          · exact Or.inr (Or.inr h)
+        · rintro (h | h | h)
+          · exact Or.inr (Or.inl h)
+          · exact Or.inl h
+          · exact Or.inr (Or.inr h)
+  induction l with
+  | nil => intro x; simp [Libcons.sortAsc]
+  | cons a as ih => intro x; simp [Libcons.sortAsc, ins, ih x]
+
+theorem sortAsc_length (l : List Nat) : (Libcons.sortAsc l).length = l.length := by
+  have ins : ∀ (a : Nat) (l : List Nat), (Libcons.insertSorted a l).length = l.length + 1 := by
+    intro a l
+    induction l with
+    | nil => simp [Libcons.insertSorted]
+    | cons y ys ih => simp only [Libcons.insertSorted]; split <;> simp [ih]
+  induction l with
+  | nil => simp [Libcons.sortAsc]
+  | cons a as ih => simp [Libcons.sortAsc, ins, ih]
+
+end Lemmas
 
 /-! ## Property theorems -/
+
+theorem translated_Median : translated "util/palomath.Median" = true := by decide
+
 
 theorem translated_consensus : translated "util/libcons.consensusPower.consensus" = true := by decide
 
@@ -21,6 +74,47 @@ theorem consensus_eq (p : Libcons.Power) :
     congr 1
     apply propext
     constructor <;> intro h <;> omega
+
+/-- C04 `palomath.Median` on `uint64` (the elected gas estimate): with `w` the sorted copy of the submitted values, the Go
+    function — empty ↦ 0, odd count ↦ the middle element, even count ↦ `w[c-1] + (w[c]-w[c-1])/2` in wrapping `uint64`
+    arithmetic — is the model's `median`, for every list of submitted values -/
+theorem median_eq (s : List Nat) (h : ∀ x ∈ s, x < 2 ^ 64) :
+    (Translated.median (s.map UInt64.ofNat) ((Libcons.sortAsc s).map UInt64.ofNat)).toNat = Libcons.median s := by
+  have hw : ∀ x ∈ Libcons.sortAsc s, x < 2 ^ 64 := fun x hx => h x ((sortAsc_mem s x).mp hx)
+  simp only [Translated.median, Libcons.median, Libcons.medianWith, Id.run, List.length_map, sortAsc_length]
+  by_cases h0 : s.length < 1
+  · have : ((s.length : Int) < 1) := by omega
+    simp [h0, this]
+  · have h0' : ¬ ((s.length : Int) < 1) := by omega
+    have hc : Int.toNat (Int.tdiv (s.length : Int) 2) = s.length / 2 := by
+      rw [Int.tdiv_eq_ediv_of_nonneg (by omega)]; omega
+    have hc1 : Int.toNat (Int.tdiv (s.length : Int) 2 - 1) = s.length / 2 - 1 := by
+      rw [Int.tdiv_eq_ediv_of_nonneg (by omega)]; omega
+    have hm : (Int.tmod (s.length : Int) 2 == 0) = (s.length % 2 == 0) := by
+      rw [Int.tmod_eq_emod_of_nonneg (by omega)]
+      have e : ((s.length : Int) % 2) = ((s.length % 2 : Nat) : Int) := by omega
+      rw [e]
+      cases s.length % 2 with
+      | zero => rfl
+      | succ n =>
+        have : ¬ ((n : Int) + 1 = 0) := by omega
+        simp [this]
+    simp only [h0, h0', decide_false, Bool.false_eq_true, ↓reduceIte, hm, hc, hc1]
+    by_cases hp : (s.length % 2 == 0) = true
+    · simp only [hp, ↓reduceIte, id_pure, Libcons.midpoint, Libcons.U64]
+      rw [UInt64.toNat_add, UInt64.toNat_div, UInt64.toNat_sub, getD_map_ofNat _ _ hw, getD_map_ofNat _ _ hw]
+      have ha : (Libcons.sortAsc s).getD (s.length / 2 - 1) 0 < 2 ^ 64 := by
+        rw [← getD_map_ofNat _ _ hw]; exact UInt64.toNat_lt _
+      have hb : (Libcons.sortAsc s).getD (s.length / 2) 0 < 2 ^ 64 := by
+        rw [← getD_map_ofNat _ _ hw]; exact UInt64.toNat_lt _
+      generalize (Libcons.sortAsc s).getD (s.length / 2 - 1) 0 = a at ha ⊢
+      generalize (Libcons.sortAsc s).getD (s.length / 2) 0 = b at hb ⊢
+      have h2 : UInt64.toNat 2 = 2 := rfl
+      rw [h2]
+      simp only [Nat.reducePow] at ha hb ⊢
+      omega
+    · simp only [hp, Bool.false_eq_true, ↓reduceIte, id_pure]
+      exact getD_map_ofNat _ _ hw
 
 example : Translated.consensus false 2 3 = true ∧ Translated.consensus false 1 3 = false ∧ Translated.consensus true 5 3 = false := by decide
 
